@@ -210,7 +210,7 @@ pub fn run_parallel<T: Sync>(
 /// A subject call that takes longer than this, twice in a row, on an argument that names nothing
 /// is reported as taking time that grows with the argument (the ladder below then stops, so the
 /// harness never reaches the magnitudes at which such a call would not return).
-pub const SLOW: std::time::Duration = std::time::Duration::from_millis(2);
+pub const SLOW: std::time::Duration = std::time::Duration::from_millis(100);
 
 /// Arguments far past any valid range, ascending: every call must fail fast.
 pub fn far_ladder() -> Vec<usize> {
